@@ -246,7 +246,7 @@ def count_obligations(vfiles):
     return n, names
 
 
-def coq_audit(prop, modules, theorems, timeout=300):
+def coq_audit(prop, modules, theorems, timeout=2400):
     """Re-run Print Assumptions for the property theorems in a fresh coqc (never cached).
     Returns (ok, {theorem: [axioms]}, log)."""
     d = os.path.join(BUILD, "audit")
